@@ -361,6 +361,9 @@ func c20StatsOne(r *Run, nh int, oc, kind string) {
 		r.Violate("stats.outcome", "ops", "an RPC that did not succeed ("+oc+") was reported to the caller as completed: its stats End says success as well", in, "RecvMsg: io.EOF", "an error")
 		success = false
 	}
+	if !success && oc == "ok" {
+		r.Violate("stats.outcome", "ops", "an RPC whose handler returned nil on a healthy connection failed at the caller", in, fmt.Sprint(err), "success")
+	}
 	// the client's End is emitted by the stream's read loop; wait for it rather than guess
 	deadline := time.Now().Add(hangTimeout)
 	for _, c := range crecs {
